@@ -191,18 +191,23 @@ class HashesFieldsDetectionItemTransformation(DetectionItemTransformation):
             value_linking = detection_item.value_linking
             negated = detection_item.negated
         and_linked = (value_linking is ConditionAND) != negated
+        items = [
+            SigmaDetectionItem(
+                field=k if k != "keyword" else None,
+                modifiers=[],
+                value=[SigmaString(x) for x in v],
+                value_linking=value_linking,
+                negated=negated,
+            )
+            for k, v in algo_dict.items()
+            if k
+        ]
+        if negated or value_linking is ConditionAND:
+            # linking and negation are carried by the objects, not by modifiers that could be written
+            for item in items:
+                item.disable_conversion_to_plain()
         return SigmaDetection(
-            detection_items=[
-                SigmaDetectionItem(
-                    field=k if k != "keyword" else None,
-                    modifiers=[],
-                    value=[SigmaString(x) for x in v],
-                    value_linking=value_linking,
-                    negated=negated,
-                )
-                for k, v in algo_dict.items()
-                if k
-            ],
+            detection_items=items,
             item_linking=ConditionAND if and_linked else ConditionOR,
         )
 
